@@ -5,6 +5,7 @@
 Require Import PG.Base.Bytes PG.Base.GoSlice.
 Require Import PG.C19.StrModel PG.C19.BlockrangeModel PG.C19.SegmentModel PG.C19.ChecksumModel PG.C19.Spec.
 Require Import PG.C19.GrammarProofs PG.C19.ReadProofs PG.C19.LabelsProofs PG.C19.ChecksumProofs PG.C19.SegmentProofs PG.C19.DataDirProofs.
+Require Import PG.C19.SegNumProofs.
 
 (* ================= the block-range syntax: exactly  a | a:b | a: | :b  with 0 <= a <= b ================= *)
 (* For ALL byte strings: a string is accepted with the pair (lo, hi) iff it is in the grammar and
@@ -229,6 +230,17 @@ Proof.
   specialize (A n I). specialize (B n I). unfold segnum_roundtrip in A, B. split; lia.
 Qed.
 Print Assumptions C19_segment_number_partial.
+(* THE FULL STATEMENT (added later, coq/C19/SegNumProofs.v): every directory prefix, every name without '.' and '/', every
+   segment number below 2^63; with and without a directory part; and 0 for a name without suffix (a dot in a DIRECTORY name is
+   ignored because filepath.Base is taken first).  fmt "%d" and strconv.Atoi are proved inverse on the way (Atoi_dec_str). *)
+Theorem C19_segment_number : forall dir name n,
+  name <> [] -> has_byte 46 name = false -> has_byte 47 name = false -> 0 <= n < 2 ^ 63 ->
+  GetSegmentNumberFromPath (dir ++ [x2f] ++ name ++ [x2e] ++ dec_str n) = n /\
+  GetSegmentNumberFromPath (name ++ [x2e] ++ dec_str n) = n /\
+  GetSegmentNumberFromPath (dir ++ [x2f] ++ name) = 0 /\
+  GetSegmentNumberFromPath name = 0.
+Proof. exact segment_number_general. Qed.
+Print Assumptions C19_segment_number.
 
 (* ================= the data directory ================= *)
 (* the file-name filter, for ALL names: a file is visited with segment number seg iff its name is
